@@ -737,6 +737,8 @@ func propC13(w *World, r *Report, tier string) {
 		r.Expect("lay.rejected-nssai", 4)
 		r.Expect("lay.tai-list", 10)
 		r.Expect("lay.service-area", 10)
+		r.Expect("dec.tai-list", 11)
+		r.Expect("dec.service-area", 6)
 		r.Expect("lay.ladn", 12)
 		r.Expect("walk.ladn", 6)
 	}()
@@ -746,6 +748,8 @@ func propC13(w *World, r *Report, tier string) {
 	checkRejectedNssai(c)
 	checkTaiList(c)
 	checkServiceAreaList(c)
+	checkTaiListSpec(c)
+	checkServiceAreaSpec(c)
 	checkLadnToNas(c)
 	checkLadnToModels(c)
 }
